@@ -415,9 +415,118 @@ def run_prop(prop, tier, seed):
     rep.notes["generator_underlying_histories_checked_by_predicates_only"] = len(gen_cases)
     if prop == "C08":
         fails += shared_iterator_oracle(rep, rng, tier)
+        fails += scope_object_probes(rep)
     if not proofs_ok:
         rep.violation("proof-broken", {"broken": rep.notes.get("broken_file", "?"), "log": rep.notes.get("build_log_tail", "")[-1500:]}, no_input=True)
     return rep.finish()
+
+
+def scope_object_probes(rep):
+    """directed: (1) a scope object whose block has ended is entered again: whatever that does (the library refuses it),
+    the underlying iterator is closed exactly once and nothing more is taken from it; (2) the underlying iterator's
+    aclose fails at exit: the error surfaces and the handle is dead all the same"""
+    fails = 0
+    for kind in ("close", "close_ga", "send"):
+        u = make_u(kind, [Obj(j + 1, j) for j in range(6)])
+        got2 = []
+
+        async def reenter():
+            ctx = a.scoped_iter(u)
+            async with ctx as h:
+                await h.__anext__()
+            try:
+                async with ctx as h2:
+                    try:
+                        got2.append(await h2.__anext__())
+                    except StopAsyncIteration:
+                        pass
+            except RuntimeError:
+                pass
+        try:
+            drive(reenter())
+            why = None
+            if u.closed != 1:
+                why = "underlying iterator closed %d times" % u.closed
+            elif got2:
+                why = "a block entered after the scope had ended received items %r" % (got2,)
+        except BaseException as e:  # noqa
+            why = "re-entering an ended scope failed with %r" % (e,)
+        rep.count(("scope-reenter", kind), True)
+        if why:
+            fails += 1
+            rep.violation("scoped:reenter", {"underlying": kind, "why": why})
+
+    class FailingClose(UClose):
+        async def aclose(self):
+            self.closed += 1
+            if self.closed == 1:
+                raise KeyError("close failed")
+    u = FailingClose([Obj(j + 1, j) for j in range(6)])
+    state = {}
+
+    async def failing():
+        try:
+            async with a.scoped_iter(u) as h:
+                state["h"] = h
+                await h.__anext__()
+        except KeyError:
+            state["raised"] = True
+        u.closed = 0          # the iterator object itself would go on (it is class-based): the handle must not
+        try:
+            state["after"] = await state["h"].__anext__()
+        except StopAsyncIteration:
+            state["after"] = None
+    try:
+        drive(failing())
+        why = None
+        if not state.get("raised"):
+            why = "the error of the underlying aclose() did not surface"
+        elif state.get("after") is not None:
+            why = "the handle still yields %r after its scope was left (underlying aclose() had failed)" % (state["after"],)
+    except BaseException as e:  # noqa
+        why = "failed with %r" % (e,)
+    # (3) an iterable that is not its own iterator, whose iterator has no aclose (neutral context): the block still works on
+    # ONE iterator -- successive tools continue where the previous one stopped
+    for with_close in (False, True):
+        class It:
+            def __init__(self, items):
+                self.items, self.closed = list(items), 0
+
+            def __aiter__(self):
+                return self
+
+            async def __anext__(self):
+                if self.closed or not self.items:
+                    raise StopAsyncIteration
+                return self.items.pop(0)
+        if with_close:
+            async def _ac(self):
+                self.closed += 1
+            It.aclose = _ac
+
+        class Iterable:
+            def __aiter__(self):
+                return It(range(5))
+
+        async def two_tools():
+            async with a.scoped_iter(Iterable()) as it:
+                first = [x async for x in a.islice(it, 2)]
+                rest = [x async for x in it]
+            return first, rest
+        try:
+            got = drive(two_tools())
+            why3 = None if got == ([0, 1], [2, 3, 4]) else "islice(it, 2) then the rest gave %r, expected ([0, 1], [2, 3, 4])" % (got,)
+        except BaseException as e:  # noqa
+            why3 = "failed with %r" % (e,)
+        rep.count(("scope-separate-iterator", with_close), True)
+        if why3:
+            fails += 1
+            rep.violation("scoped:separate-iterator", {"iterator_has_aclose": with_close, "why": why3})
+    rep.count(("scope-failing-close",), True)
+    if why:
+        fails += 1
+        rep.violation("scoped:failing-close", {"why": why})
+    return fails
 
 
 SEQ_TOOLS = ["islice", "takewhile", "dropwhile", "enumerate", "zip", "map", "filter", "pairwise", "batched", "accumulate", "compress", "zip_longest", "chain", "min", "sum", "list", "any", "all", "nlargest"]
